@@ -51,9 +51,15 @@ histories = st.fixed_dictionaries({
     "ticks": st.lists(tick, min_size=40, max_size=160),
     "steady": st.sampled_from([True, True, True, False]),         # one small message per tick in both directions (keeps both counters moving)
     "idle": st.integers(0, 80),
-    "end": st.sampled_from(["none", "client-disconnect", "server-disconnect", "client-disconnect-keep-updating"]),
+    "end": st.sampled_from(["none", "client-disconnect", "server-disconnect", "client-disconnect-keep-updating", "reconnect-in-callback",
+                            "reconnect-in-callback"]),
     "early": st.lists(st.tuples(st.sampled_from([0, 3, 14, 15, 40, 2000]), st.sampled_from(scen.RETRIES)).map(list), max_size=2),   # send() calls between connect() and the connect callback
     "hs_delay": st.sampled_from([0.001, 0.03, 0.2]),
+    # configured server message timeout (None = default 1 s): shorter than the handshake round trip in some histories
+    "s_msg_timeout": st.sampled_from([None, None, 0.05, 0.1, 0.3]),
+    "bystander": st.booleans(),
+    # what the server application sends from inside its connect event: [size, retry]
+    "greet": st.lists(st.tuples(st.sampled_from([0, 20, 300, 1400, 5000]), st.sampled_from(scen.RETRIES)).map(list), max_size=3),
     "rehello": st.one_of(st.none(), st.none(), st.fixed_dictionaries({
         "sends": st.integers(1, 3), "size": st.sampled_from([40, 900, 5000, 20000, 48000]), "retry": st.sampled_from(scen.RETRIES),
         "after": st.integers(0, 6), "ahead": st.integers(1, 40), "bundle": st.booleans()})),
@@ -143,9 +149,24 @@ def count_wraps(w):
 
 def hist_body(ctx, c):
     link = scen.Link(c["link"])
-    with W.World(seed=c["seed"], flavour=c["flavour"], mtu=c["mtu"]) as w:
+    smt = c.get("s_msg_timeout")
+    with W.World(seed=c["seed"], flavour=c["flavour"], mtu=c["mtu"],
+                 configure=(lambda ctxt: ctxt.setMessageTimeout(smt)) if smt is not None else None) as w:
+        if c.get("bystander"):
+            # another client is connected already: the server loop ticks on its own while our handshake is in progress
+            # (with nobody connected it sleeps until a datagram arrives)
+            w.connect_client(laddr=("10.0.9.9", 45000))
         ch = w.add_client()
         w.net.default_delay = c.get("hs_delay", 0.001)
+        greet = list(c.get("greet", ()))
+
+        def on_ev(e):
+            # (runs inside the handler's connect event, on the server thread)
+            if e["ev"] == "connect" and greet:
+                for k, (n_g, retry_g) in enumerate(greet):
+                    e["client"].send(W.payload_for(810000 + k, n_g), retry=RetryMode(retry_g))
+                del greet[:]
+        w.on_event.append(on_ev)
         ch.connect()
         for k, (n_e, retry_e) in enumerate(c.get("early", ())):
             # an application that sends before the handshake finished (whatever the library does with it, nothing may leak)
@@ -154,8 +175,15 @@ def hist_body(ctx, c):
         if not w.run(3.0, 0.017, until=lambda: ch.connected() and ch.laddr in w.ctxt.connections):
             judge(ctx, w, {ch.laddr: 1})        # whatever went wrong, judge what reached the wire first
             raise W.WorldError("honest handshake did not complete")
-        w.net.default_delay = 0.001
         sconn = w.server_conn(ch.laddr)
+        if c.get("greet"):
+            # a server application that talks from the moment the client is connected, on the link the handshake just used
+            # (whatever is still pending from the handshake shares the queue with these messages)
+            for k in range(30):
+                scen.do_send(w, ch, "s", 8 + (k % 3) * 200, 0, 820000 + k, callback=False)
+                w.step(0.017)
+            ctx.label("hist-server-talks-right-after-connect")
+        w.net.default_delay = 0.001
         # one idle second first: the low sequence numbers used by the handshake then carry an older send time than the
         # same numbers after the (positioned) wrap, exactly as after a genuine 65535-datagram wrap
         w.run(1.0, 0.017)
@@ -215,6 +243,25 @@ def hist_body(ctx, c):
             w.step(0.017)
             ch.udp.disconnect()
             w.run(0.6, 0.017)
+        elif c["end"] == "reconnect-in-callback" and ch.connected():
+            # an application that calls connect() again on the same UdpClient from inside a send callback (i.e. in the middle of
+            # update()'s receive step) while further messages are queued: what belongs to the old session must not leave
+            # under the new connection's (absent) key
+            fired = []
+
+            def again(ok):
+                if not fired:
+                    fired.append(w.clock.t)
+                    ch.udp.connect(w.server_addr, None)
+            ch.udp.send(W.payload_for(800010, 60), retry=0, callback=again)
+            for k in range(12):
+                if not fired:
+                    ch.udp.send(W.payload_for(800020 + k, 40 + 30 * k), retry=[0, 1, -1][k % 3], callback=None)
+                w.step(0.017)
+            w.run(1.5, 0.017)
+            if fired:
+                n_sessions = 2
+                ctx.label("hist-connect-again-inside-send-callback")
         elif c["end"] == "server-disconnect" and w.server_conn(ch.laddr) is not None:
             conn = w.server_conn(ch.laddr)
             w.on_server_thread(lambda: conn.disconnect())
